@@ -23,10 +23,15 @@ CHECKS = {
          "census: every natural loop of hand-written font-types / read-fonts code is paced -- each trip advances an iterator that is "
          "finite by construction, caller-supplied or repo-defined (delegated), or moves a counter by a constant towards a bound the "
          "loop cannot change, with the exit test on every trip -- or is on the baseline of loops that existed on the pinned tree "
-         "(not claimed); a new unpaced loop or a loop that lost its pacing is a violation. Closed functions (restricted visibility, "
-         "never used as a value) are analysed under the facts every call site establishes for their parameters. Six genuine "
-         "defects found by triaging baseline entries were repaired (F15-F18 in layout.rs). Not decided: the baseline's untriaged "
-         "sites and loops, finiteness of repo-defined iterators, the linear-time clause.",
+         "(every unpaced loop on today's baseline was read and carries a termination argument); no loop has a trip that skips every "
+         "exit test; a new unpaced loop, a loop that lost its pacing or a `continue` that bypasses the exit test is a violation. "
+         "Closed functions (restricted visibility, never used as a value) are analysed under the facts every call site establishes "
+         "for their parameters; calls through a trait the crate does not export use the hull of the impls' return summaries. A "
+         "baseline entry confirmed by reading carries, where its reason is structural, a witness that is re-evaluated on every run "
+         "(the guard call still dominates the site, the caller still makes the call the reason names, a helper still returns 0 for "
+         "the formats that would divide by zero): removing the guard in front of a tolerated site voids the confirmation. Genuine "
+         "defects found by triaging baseline entries were repaired (F15-F18, F21-F25). Not decided: the baseline's untriaged "
+         "sites, finiteness of repo-defined iterators, the linear-time clause.",
     note="Trusted: rustc layout/MIR, bytemuck's own checks, confirmed per-function reasons in rules/confirmed_panics_read_fonts.json (read by hand). C01-d (generated shape agreement) is reported under C04's engine when built.",
  ),
  "C02": dict(
@@ -44,9 +49,12 @@ CHECKS = {
          "slicing / split / copy / division site in skrifa, IFT and the brotli wrapper against the baseline (as C01-h: proved, or "
          "listed as existing on the pinned tree and not claimed; anything new is a violation); every hand-written Iterator::next "
          "makes progress on every yielding path; loop census over skrifa / IFT / the brotli wrapper (as C01-j: 281 of 308 loops paced "
-         "automatically, the rest on the baseline and not claimed). One genuine defect is a known finding (F5); F19 (IFT feature "
-         "map u16 arithmetic) and F20 (COLR variation index overflow) were repaired. Not decided: the baseline's untriaged "
-         "sites and loops (scaler buffer slicing, autohinter indexing and ring walks, binary searches), non-finite floats.",
+         "automatically, the others read and confirmed with a termination argument except the Newton iteration of normalize14 and "
+         "the FFI loop around the C brotli decoder; no trip skips every exit test -- the rule that came out of F30, an endless walk "
+         "in the auto-hinter's blue-zone search, repaired); confirmed baseline entries carry re-evaluated witnesses as in C01 "
+         "(including: every stack_mem::<N> call passes a size within N). One genuine defect is a known finding (F5); F19, F20, "
+         "F30, F31 (2^n re-traversal of nested PaintGlyphs) and the checked-build panics F26-F29, F32 were repaired. Not decided: "
+         "the baseline's untriaged sites (scaler buffer slicing, autohinter indexing), non-finite floats.",
     note="Trusted: rustc MIR, call-graph construction (A-CB), confirmed per-function reasons in rules/confirmed_panics_client.json, the brotli FFI.",
  ),
  "C04": dict(
@@ -166,15 +174,16 @@ CHECKS = {
     note="Trusted: call-graph construction (A-CB), the two confirmed reasons for the decoder's slices (rules/site_reasons.json), the dead-arm reasons in rules/confirmed_panics_read_fonts.json.",
  ),
  "C18": dict(
-    technique="dominating-guard analysis, who-may-call over resolved callees, path-sensitive no-error-exit-after-mutation (T-AFTER), result-fate query",
+    technique="dominating-guard analysis, who-may-call over resolved callees, path-sensitive no-error-exit-after-mutation (T-AFTER), result-fate query, path-sensitive must-pass-through (decoder call before any non-error exit)",
     design_ref="DESIGN.md §4 C18",
     text="Decides for all CFG paths: both apply entry points are gated by the two compatibility-id comparisons whose mismatch "
          "edge returns IncompatiblePatch, and the appliers/decoder have no other callers (no decoding for a mismatched id); in "
          "apply_next_patches_with_decoder no exit other than Ok is reachable after any store to a UriStatus and every store "
          "writes Applied, a call receiving &mut UriStatus counts as a store (atomic bookkeeping for a decoder failing at any call); every decode/applier result is propagated; a "
          "REPLACE_TABLE entry is decoded without a dictionary; in the glyph-keyed applier a tag is marked processed only after a "
-         "call that received the new font's builder (untouched tables are copied). Does not decide which bytes change, glyph-keyed order "
-         "independence or offset widening arithmetic (value level).",
+         "call that received the new font's builder (untouched tables are copied); each brotli backend returns a non-error result only "
+         "on paths that handed the stream to the decoder (no early Ok for special cases). Does not decide which bytes change, "
+         "which of two duplicate entries wins, glyph-keyed order independence or offset widening arithmetic (value level).",
     note="Trusted: rustc MIR, fact dumper, explorer; the brotli decoder (incl. FFI) is a black box returning Ok/Err.",
  ),
  "C19": dict(
@@ -200,8 +209,13 @@ CHECKS = {
          "counting loops, inferred struct-field invariants, 64-bit monotone counters under assumption A-STEPS) or is on the "
          "baseline of sites that existed on the pinned tree (per function; untriaged = NOT claimed safe, many are genuinely "
          "reachable overflows in the autohinter / CFF hinter / scaler) -- a new unproven site, or the loss of the guard that made "
-         "one provable, is a violation. So the check decides 'no new unchecked arithmetic on unbounded values', not the "
-         "absence of overflow in the baseline sites.",
+         "one provable, is a violation. Entries confirmed by reading (a guard the analysis cannot see: binary-search postcondition, "
+         "range test, sortedness check, height limit, sign test at the only call site) carry witnesses re-evaluated on every run, so "
+         "removing such a guard voids the confirmation. The untriaged part of the baseline was read module by module (read-fonts "
+         "tables, IFT, int_set, TrueType interpreter) and the auto-hinter probed: 18 genuine overflow defects were repaired "
+         "(F15-F21, F23-F29, F32). So the check decides 'no new unchecked arithmetic on unbounded values, and no confirmed guard "
+         "removed', not the absence of overflow in the remaining untriaged sites (auto-hinter and scaler arithmetic whose bound is "
+         "geometric).",
     note="Trusted: rustc's placement of Assert terminators; the interval domain (sound over-approximation, widening at loop heads). Two genuine defects in the zones were repaired (F7, F8).",
  ),
 }
